@@ -68,6 +68,8 @@ def handleIB (op : String) (args : List String) : Option String :=
     | .error => pure "err"
     | .panic => pure "panic"
   | "ib.id", [pk] => do pure s!"ok {toHex (webBundleId (← ofHex pk))}"
+  -- the library's VerifyEd25519Signature against the model's parameter edVerify, whose value for these arguments is the oracle's verdict
+  | "ib.libverify", [_, _, _, verdict] => pure (if verdict == "1" then "1" else "0")
   | _, _ => none
 
 end WebPkg.Driver
